@@ -41,6 +41,7 @@ type Addr struct {
 	Sel   []int  // selector path inside a by-value struct held in a cell / element
 	Guard string // lock key required to touch what this address designates ("" = none)
 	Fresh bool   // designates an object allocated on this path
+	rebind func(Val) // AElem: re-binds the SSA value naming the slice after an element store
 	owner      *Addr // AObj sub-object: containing object
 	ownerField int
 }
@@ -250,6 +251,7 @@ type Run struct {
 	spec     *SpecDB
 	arrSorts map[string]Sort
 	arrRefEl map[string]bool
+	arrSliceRefEl map[string]string // arrays whose elements are slices of references: slice sort
 	mu       sync.Mutex
 	obls     []*Obligation
 	wg       sync.WaitGroup
@@ -271,6 +273,7 @@ type Run struct {
 	pureDepth int
 	curCon   *Contract
 	closable map[string]bool
+	ctxInner map[string]Val
 	mapZero  map[string]string // Mv array name -> zero term of the element type
 	inInit   bool
 }
@@ -317,6 +320,16 @@ func (x *Run) baseArr(name string, epoch int) string {
 	x.d.raw("c."+c, fmt.Sprintf("(declare-const %s %s)", c, s))
 	if strings.HasPrefix(name, "Mv.") {
 		x.mapZeroAxiom(c, sanitize(fmt.Sprintf("Md.%s$e%d", name[3:], epoch)), name)
+	}
+	if epoch == 0 && x.arrSliceRefEl[name] != "" {
+		// references inside slices held in the initial heap are not objects allocated later
+		ss := x.arrSliceRefEl[name]
+		if strings.HasPrefix(string(s), "(Array Int (Array") {
+			ks := mapKeySortOfArr(s)
+			x.d.raw("ax.sl."+c, fmt.Sprintf("(assert (forall ((r Int) (k %s) (i Int)) (! (>= (select (sarr_%s (select (select %s r) k)) i) 0) :pattern ((select (sarr_%s (select (select %s r) k)) i)))))", ks, ss, c, ss, c))
+		} else {
+			x.d.raw("ax.sl."+c, fmt.Sprintf("(assert (forall ((r Int) (i Int)) (! (>= (select (sarr_%s (select %s r)) i) 0) :pattern ((select (sarr_%s (select %s r)) i)))))", ss, c, ss, c))
+		}
 	}
 	if epoch == 0 && refEl {
 		// references held in the initial heap are not objects allocated later
@@ -365,6 +378,7 @@ func (x *Run) mapZeroAxiom(valConst, domConst, valName string) {
 	}
 	x.d.raw("c."+domConst, fmt.Sprintf("(declare-const %s %s)", domConst, ds))
 	ks := mapKeySortOfArr(vs)
+	x.d.raw("ax.nilmap."+domConst, fmt.Sprintf("(assert (forall ((k %s)) (! (not (select (select %s 0) k)) :pattern ((select (select %s 0) k)))))", ks, domConst, domConst))
 	x.d.raw("ax.zero."+valConst, fmt.Sprintf("(assert (forall ((m Int) (k %s)) (! (=> (not (select (select %s m) k)) (= (select (select %s m) k) %s)) :pattern ((select (select %s m) k)))))", ks, domConst, valConst, zero, valConst))
 }
 
